@@ -300,7 +300,7 @@ def provenance(F, sc, p, v, depth=0, convs=()):
             if c[0] == "fn" and len(c) > 2 and isinstance(c[2], dict):
                 # a function item: must itself be a conversion (a From/Into instance or one of this crate's fn(&Borrowed) -> Owned)
                 full = c[1] or ""
-                if c[2].get("canon") in convs or re.search(r"(Into|From)>?::(into|from)\b", full):
+                if c[2].get("canon") in convs or re.search(r"(Into|From)(<.*>)?>?::(into|from)$", full):
                     return provenance(F, sc, p, v[3][0], depth + 1, convs)
                 return None, "elements are mapped with %s, expected the element's own conversion" % full
             cc = c[2] if c[0] == "agg" else c[1] if c[0] == "closure" else None
@@ -324,7 +324,7 @@ def closure_converts(F, cf, convs):
     calls = [x for x in q.events if x["k"] == "call"]
     key = q.ret[2] or ""
     canon = ((e or {}).get("callee") or {}).get("canon")
-    if len(calls) != 1 or not (canon in convs or re.search(r"(Into|From)>?::(into|from)\b", key)):
+    if len(calls) != 1 or not (canon in convs or re.search(r"(Into|From)(<.*>)?>?::(into|from)$", key)):
         return "elements are mapped with %s, expected the element's own conversion |i| (*i).into()" % [x["name"] for x in calls]
     a = norm(e["args"][0]) if len(e["args"]) == 1 else None
     while a and a[0] in ("deref", "copy"):
